@@ -175,7 +175,7 @@ class World(object):
             return _digest(m, False)
         if k == 'decode_bad':
             raw = bufrgen.apply_fault(bytes.fromhex(msgs[op['m']]['hex']), op['fault'])
-            m = self.clients[op['c']]['dec'].process(raw)
+            m = self.clients[op['c']]['dec'].process(raw, ignore_value_expectation=op.get('ive', False))
             return _digest(m)
         if k in ('render', 'query', 'mdquery', 'script', 'wire', 'subset_encode'):
             m = self.handles.get(op['h'])
@@ -705,7 +705,7 @@ def gen_plan(family, seed, msgs, tier='quick', index=None):
                 fault = streamsim.gen_stream_fault(rng, raw, ['stopsig', 'undef_el', 'undef_seq', 'len-', 'len+'])
             if fault is None:
                 continue
-            op = {'op': 'decode_bad', 'c': c, 'm': mi, 'fault': fault}
+            op = {'op': 'decode_bad', 'c': c, 'm': mi, 'fault': fault, 'ive': rng.random() < max(p_ive, 0.15)}
         elif k in ('render', 'query', 'mdquery', 'script', 'wire', 'subset_encode'):
             h, hm, nsub, wired = rng.choice(handles[-6:])
             if k == 'render':
